@@ -174,6 +174,62 @@ def _f_both(*blocks, block_info=None, block_id=None):
     return blocks[0]
 
 
+EXEC_LOG = []
+
+
+def _f_exec(*blocks, block_info=None):
+    """records, per array argument, what block_info says about it and the block really handed over"""
+    EXEC_LOG.append((block_info, [np.array(b, copy=True) if isinstance(b, np.ndarray) else None for b in blocks]))
+    return np.zeros((), dtype="int64")
+
+
+def executed_oracle(da, call):
+    """the property, end to end and independent of the model: run every task of the real graph; the block an array argument
+    receives must be exactly source[array-location] of the block_info entry describing it (also along dropped axes, which
+    arrive concatenated), and block_info[None]['chunk-location'] must enumerate the advertised grid once"""
+    import dask.local
+    from dask.core import flatten
+    args = call[0]
+    y, e, info_dep, _ = real_map_blocks(da, call, _f_exec)
+    if info_dep is None or int(np.prod(y.numblocks)) > 48:
+        return None
+    srcs = []
+    for k, a in enumerate(args):
+        if a is None:
+            srcs.append(None)
+        else:
+            shape = tuple(sum(c) for c in a)
+            srcs.append(np.arange(int(np.prod(shape)), dtype="int64").reshape(shape) + k)
+    del EXEC_LOG[:]
+    keys = list(flatten(y.__dask_keys__()))
+    dask.local.get_sync(dict(y.__dask_graph__()), keys)
+    problems, locs = [], []
+    for info, blocks in EXEC_LOG:
+        if info is None:
+            problems.append("function called without block_info")
+            continue
+        if None in info:
+            locs.append(tuple(info[None]["chunk-location"]))
+        for i, (src, b) in enumerate(zip(srcs, blocks)):
+            if src is None or b is None:
+                continue
+            d = info.get(i)
+            if d is None:
+                problems.append(f"block_info lacks an entry for array argument {i}")
+                continue
+            al = [tuple(int(v) for v in p_) for p_ in d["array-location"]]
+            want = src[tuple(slice(lo, hi) for lo, hi in al)] if len(al) == src.ndim else None
+            if want is None or want.shape != b.shape or not np.array_equal(want, b):
+                problems.append(f"block_info[{i}]['array-location'] = {al} but argument {i} received a block of shape {b.shape}"
+                                + ("" if want is None or want.shape != b.shape else " holding other elements"))
+            if tuple(d["shape"]) != src.shape:
+                problems.append(f"block_info[{i}]['shape'] = {d['shape']}, the argument has shape {src.shape}")
+    grid = list(itertools.product(*[range(n) for n in y.numblocks]))
+    if sorted(locs) != sorted(grid):
+        problems.append("block_info[None]['chunk-location'] over all executed tasks is not the advertised output grid, each block once")
+    return problems
+
+
 def c_chunks(cs):
     from common import clist
     return clist(cs, lambda ax: clist(ax))
@@ -347,7 +403,11 @@ def fam_payload(chk, da, rng):
     calls += [([((1, 3), (2, 2, 2))], [], None, None), ([((1, 3), (2, 2, 2))], [1], None, None),
               ([((1, 3), (2, 2, 2))], [], [0], None), ([((2, 2),), ((4,),)], [], None, None),
               ([((2, 2), (3,)), ((3,),)], [], None, None), ([((2, 2),)], [], None, ((1, 1),)),
-              ([((2, 2),)], [0], [0], (3,)), ([((2, 2),), ((1, 1, 1),)], [], None, None)]
+              ([((2, 2),)], [0], [0], (3,)), ([((2, 2),), ((1, 1, 1),)], [], None, None),
+              # inputs of different ndim with a dropped axis (which input axes arrive concatenated?)
+              ([((2, 4), (3, 1)), ((3, 1),)], [0], None, None), ([((3, 1),), ((2, 4), (3, 1))], [0], None, None),
+              ([((2, 2), (3, 1), (2,)), ((3, 1), (2,))], [0], None, None), ([((2, 2), (3, 1), (2,)), ((2,),)], [1], None, None),
+              ([((2, 2), (3, 1)), ((3, 1),), None], [0], [0], None)]
     for k in range(n):
         calls.append(gen_mb_call(rng, malformed=(k % 5 == 4)))
     cases, idcases, depcases, kept = [], [], [], []
@@ -397,6 +457,20 @@ def fam_payload(chk, da, rng):
             if probs:
                 chk.violation("; ".join(sorted(set(probs))[:3]), {"call": repr(call), "advertised": y.chunks},
                               signature={"class": "block-info-payload", "drop": bool(drop), "new_axis": bool(new_axis)})
+            if len(kept) % (1 if chk.tier == "thorough" else 2) == 0 or (drop and sum(a is not None for a in args) > 1):
+                try:
+                    with warnings.catch_warnings():
+                        warnings.simplefilter("ignore")
+                        xprobs = executed_oracle(da, call)
+                except Exception as ex:  # noqa: BLE001
+                    xprobs = None
+                    chk.count("payload:executed-oracle-raises:" + type(ex).__name__)
+                if xprobs is not None:
+                    chk.count("payload:executed-oracle")
+                    if xprobs:
+                        chk.violation("; ".join(sorted(set(xprobs))[:3]), {"call": repr(call), "advertised": y.chunks},
+                                      signature={"class": "block-info-vs-executed-task", "drop": bool(drop), "new_axis": bool(new_axis),
+                                                 "multi": sum(a is not None for a in args) > 1})
             # block_id payload
             if id_dep is not None:
                 grid = list(itertools.product(*[range(len(c)) for c in id_dep.chunks]))
